@@ -56,31 +56,31 @@ func writeEvidence(prop, tier string, seed uint64, spec engine.PropSpec, a *Agg,
 		"distinct_nontrivial": min(int(a.NonTrivial), a.DistinctDigests),
 		"rule": "one evaluation = one simulated run (chaos phase with seeded faults, then the deterministic heal phase, then history checks); run i of profile P uses seed splitmix(VERIF_SEED, P, i). " +
 			"A run is non-trivial when at least one injected fault took effect and every mandatory probe of the property fired in that run and no violation truncated it; distinct = distinct digests over the complete observable execution (every action, every Ready, every return value); distinct_nontrivial = min(non-trivial runs, distinct digests)",
-		"samples":                  samples,
-		"mandatory_probes":         spec.Mandatory,
-		"probe_starved":            starved,
-		"profiles":                 profiles,
-		"runs_per_profile":         a.PerProfile,
-		"runs_per_hour":            perHour(float64(a.Runs)),
-		"seeds_per_hour":           perHour(float64(a.Runs)),
-		"actions":                  a.Actions,
-		"applicable_actions":       a.Applicable,
-		"simulated_ticks":          a.Ticks,
-		"simulated_ticks_per_run":  float64(a.Ticks) / float64(max(a.Runs, 1)),
-		"cpu_seconds":              a.CPUSeconds,
-		"distinct_run_digests":     a.DistinctDigests,
-		"distinct_abstract_states": a.DistinctStates,
-		"abstract_state_measure":   "hash of per node (role, term rank, uncommitted-tail bucket, commit-applied bucket, unstable entries/snapshot, joint, voter count) plus in-flight message count bucket, sampled every 8th action",
-		"distinct_action_bigrams":  a.DistinctBigrams,
-		"faults_took_effect":       a.Faults,
-		"probes":                   a.Probes,
-		"runs_with_probe":          a.RunsWithProbe,
-		"oracle_evaluations":       a.Evals,
-		"actions_by_kind":          a.ByKind,
-		"messages_by_type":         a.MsgTypes,
-		"foreign_violations":       a.Foreign,
-		"known_findings_hit":       knownHit,
-		"inconclusive":             a.Inconclusive,
+		"samples":                           samples,
+		"mandatory_probes":                  spec.Mandatory,
+		"probe_starved":                     starved,
+		"profiles":                          profiles,
+		"runs_per_profile":                  a.PerProfile,
+		"runs_per_hour":                     perHour(float64(a.Runs)),
+		"seeds_per_hour":                    perHour(float64(a.Runs)),
+		"actions":                           a.Actions,
+		"applicable_actions":                a.Applicable,
+		"simulated_ticks":                   a.Ticks,
+		"simulated_ticks_per_run":           float64(a.Ticks) / float64(max(a.Runs, 1)),
+		"cpu_seconds":                       a.CPUSeconds,
+		"distinct_run_digests":              a.DistinctDigests,
+		"distinct_abstract_states":          a.DistinctStates,
+		"abstract_state_measure":            "hash of per node (role, term rank, uncommitted-tail bucket, commit-applied bucket, unstable entries/snapshot, joint, voter count) plus in-flight message count bucket, sampled every 8th action",
+		"distinct_action_bigrams":           a.DistinctBigrams,
+		"faults_took_effect":                a.Faults,
+		"probes":                            a.Probes,
+		"runs_with_probe":                   a.RunsWithProbe,
+		"oracle_evaluations":                a.Evals,
+		"actions_by_kind":                   a.ByKind,
+		"messages_by_type":                  a.MsgTypes,
+		"foreign_violations":                a.Foreign,
+		"known_findings_hit":                knownHit,
+		"inconclusive":                      a.Inconclusive,
 		"linearizability_histories_checked": a.LinChecked,
 		"linearizability_operations":        a.LinOps,
 		"heal_phases_run":                   a.HealRun,
@@ -95,7 +95,7 @@ func writeEvidence(prop, tier string, seed uint64, spec engine.PropSpec, a *Agg,
 		"determinism_mismatches":            a.DetMismatch,
 		"components_real": []string{"raft.go", "log.go", "log_unstable.go", "rawnode.go", "read_only.go", "tracker/", "quorum/", "confchange/",
 			"raftpb (marshal at send, unmarshal per delivery)", "storage.go MemoryStorage (page cache)", "bootstrap.go", "status.go", "crypto/rand.Int draw in resetRandomizedElectionTimeout (bytes from the seeded seam)"},
-		"components_stub": []string{"network (simulated transport)", "clocks (simulated tick sources)", "disk durability (journal + durable image)", "application state machine (hash chain + register file)", "clients and operators (seeded workload)"},
+		"components_stub":    []string{"network (simulated transport)", "clocks (simulated tick sources)", "disk durability (journal + durable image)", "application state machine (hash chain + register file)", "clients and operators (seeded workload)"},
 		"components_not_run": []string{"node.go channel wrapper", "rafttest/", "default logger"},
 	}
 	ev := map[string]interface{}{
